@@ -13,8 +13,10 @@ import (
 	"math/rand"
 	"strings"
 
+	"github.com/hashicorp/hcl-lang/decoder"
 	"github.com/hashicorp/hcl-lang/lang"
 	"github.com/hashicorp/hcl-lang/reference"
+	"github.com/hashicorp/hcl/v2"
 )
 
 func referenceHoverOracle(run *Run, n int) {
@@ -39,6 +41,9 @@ func referenceHoverOracle(run *Run, n int) {
 					continue
 				}
 				root := lo.Addr[0].String()
+				if otherName == "a_other.tf" {
+					refHoverCase(run, ctx, d1, pd1, lo, tbl, cfg.Src)
+				}
 				if root != "self" && root != "count" && root != "each" {
 					continue
 				}
@@ -77,4 +82,35 @@ func referenceHoverOracle(run *Run, n int) {
 			}
 		}
 	}
+}
+
+// refHoverCase: the content of the hover on a written reference against the model (kind refhover): the address
+// in backquotes, the description of the declaration's type (object types with their attributes in byte order,
+// nested objects indented, optional attributes marked), the declaration's description.  Which declaration a
+// reference denotes (Targets.Match) is an input here; it is modelled in Model/Ref.v.
+func refHoverCase(run *Run, ctx context.Context, d *decoder.PathDecoder, pd *PathData, lo reference.LocalOrigin, tbl map[int]hcl.Pos, src string) {
+	ts, ok := pd.Ctx.ReferenceTargets.Match(lo)
+	if !ok || len(ts) == 0 {
+		return
+	}
+	t := ts[0]
+	root := lo.Addr[0].String()
+	if len(t.LocalAddr) > 0 && root != "self" && root != "count" && root != "each" {
+		return // a block written by its absolute address inside itself would be shown under its local address
+	}
+	pos, ok := tbl[lo.Range.Start.Byte+1]
+	if !ok {
+		return
+	}
+	res := safeCall("HoverAtPos", func() (interface{}, error) { return d.HoverAtPos(ctx, "main.tf", pos) })
+	run.Res.Evaluations++
+	if res.Panic != "" || res.Err != nil {
+		return
+	}
+	h, _ := res.Val.(*lang.HoverData)
+	if h == nil {
+		return
+	}
+	run.Case("refhover", []S{Str(lo.Addr.String()), Str(t.Name), tyS(t.Type), Str(t.Description.Value)}, Str(h.Content.Value))
+	run.Count("reference_hover_contents")
 }
